@@ -309,6 +309,8 @@ func (ctx *_builtinJSON_stringifyContext) str(key Value, holder *Object) bool {
 			switch pValue := o1.pValue.(type) {
 			case valueInt, valueFloat:
 				value = o.ToNumber()
+			case *Symbol:
+				// [[SymbolData]] is not unwrapped, a Symbol wrapper is serialised as an ordinary object
 			default:
 				value = pValue
 			}
